@@ -117,6 +117,8 @@ type Exec struct {
 	decrEntry     *Term
 	lastAlloc      map[string]*Term
 	inlineNames    map[string]bool
+	abstracted     map[string]bool
+	absCall        bool
 	harnessUnroll  int
 	unrollOverride int
 	unfolding     map[*ssa.Function]int
@@ -213,6 +215,7 @@ func (x *Exec) heap(st *State, name string, arity, sort int) *Mem {
 		if isRefComp(name) {
 			tb, top0 := x.tb, x.top0
 			m.refBound = func(r *Term) *Term { return tb.Cmp("bvule", r, top0) }
+			m.lowRefs = true
 		}
 		x.bases[name] = m
 	}
@@ -257,6 +260,10 @@ func (x *Exec) applyHavoc(m *Mem, name string, h *havocRec, guarded bool) *Mem {
 // havoc applies a forget event to the state.
 func (x *Exec) havoc(st *State, covers func(string) bool, pred func(string, []*Term) *Term) {
 	x.nhavoc++
+	if dn := os.Getenv("GOCV_HAVOCDBG"); dn != "" && covers(dn) {
+		fmt.Fprintf(os.Stderr, "DEBUG: havoc #%d covers %s\n", x.nhavoc, dn)
+		debug.PrintStack()
+	}
 	h := &havocRec{id: x.nhavoc, guard: x.full(st), covers: covers, pred: pred, refOK: x.refOK(st)}
 	st.havocs = append(append([]*havocRec{}, st.havocs...), h)
 	for name, m := range st.heaps {
